@@ -3,6 +3,7 @@ package main
 import (
 	"fmt"
 	"go/ast"
+	"path/filepath"
 	"reflect"
 	"sort"
 	"strconv"
@@ -12,6 +13,7 @@ import (
 	"github.com/pentops/j5/gen/j5/schema/v1/schema_j5pb"
 	"google.golang.org/protobuf/reflect/protoreflect"
 	"google.golang.org/protobuf/reflect/protoregistry"
+	"verifharness/gen"
 )
 
 // keep the generated packages linked in (their descriptors are read below)
@@ -162,8 +164,85 @@ func genExtFields(repo string) (string, error) {
 	}
 	sb.WriteString(strings.Join(rows, ";\n"))
 	sb.WriteString("\n].\n")
+	// how conversion errors get their position: conversionVisitor.addError guards errpos.AddPosition only by
+	// `loc != nil`, and sourcewalk's SourceNode.GetPos returns the address of a composite literal (never nil)
+	ap, err := addErrorShape(repo)
+	if err != nil {
+		return "", err
+	}
+	sb.WriteString("(* addError: calls errpos.AddPosition; its only guard is `loc != nil`; GetPos returns &errpos.Position{...} in its only return *)\n")
+	fmt.Fprintf(&sb, "Definition adderror_adds_position : bool := %s.\n", coqBool(ap[0]))
+	fmt.Fprintf(&sb, "Definition adderror_guard_is_nil_check : bool := %s.\n", coqBool(ap[1]))
+	fmt.Fprintf(&sb, "Definition getpos_returns_literal_address : bool := %s.\n", coqBool(ap[2]))
 	_ = strconv.Itoa
 	return sb.String(), nil
+}
+
+// addErrorShape inspects conversionVisitor.addError (j5convert) and SourceNode.GetPos (sourcewalk) by syntax.
+func addErrorShape(repo string) ([3]bool, error) {
+	var out [3]bool
+	_, f, err := gen.ParseFile(filepath.Join(repo, "internal/j5s/j5convert/conversion.go"))
+	if err != nil {
+		return out, err
+	}
+	for _, d := range f.Decls {
+		fd, ok := d.(*ast.FuncDecl)
+		if !ok || fd.Name.Name != "addError" || fd.Body == nil {
+			continue
+		}
+		ast.Inspect(fd, func(n ast.Node) bool {
+			ifs, ok := n.(*ast.IfStmt)
+			if !ok {
+				return true
+			}
+			calls := false
+			ast.Inspect(ifs.Body, func(m ast.Node) bool {
+				if c, ok := m.(*ast.CallExpr); ok {
+					if se, ok := c.Fun.(*ast.SelectorExpr); ok && se.Sel.Name == "AddPosition" {
+						calls = true
+					}
+				}
+				return true
+			})
+			if calls {
+				out[0] = true
+				if be, ok := ifs.Cond.(*ast.BinaryExpr); ok && be.Op.String() == "!=" {
+					if x, ok := be.X.(*ast.Ident); ok && x.Name == "loc" {
+						if y, ok := be.Y.(*ast.Ident); ok && y.Name == "nil" {
+							out[1] = true
+						}
+					}
+				}
+			}
+			return true
+		})
+	}
+	_, g, err := gen.ParseFile(filepath.Join(repo, "internal/j5s/sourcewalk/sourcewalk.go"))
+	if err != nil {
+		return out, err
+	}
+	for _, d := range g.Decls {
+		fd, ok := d.(*ast.FuncDecl)
+		if !ok || fd.Name.Name != "GetPos" || fd.Body == nil {
+			continue
+		}
+		nret, good := 0, 0
+		ast.Inspect(fd, func(n ast.Node) bool {
+			if r, ok := n.(*ast.ReturnStmt); ok {
+				nret++
+				if len(r.Results) == 1 {
+					if u, ok := r.Results[0].(*ast.UnaryExpr); ok && u.Op.String() == "&" {
+						if _, ok := u.X.(*ast.CompositeLit); ok {
+							good++
+						}
+					}
+				}
+			}
+			return true
+		})
+		out[2] = nret == 1 && good == 1
+	}
+	return out, nil
 }
 
 // typeSwitchArms lists the case labels of the first type switch of buildField and buildProperty.
